@@ -67,6 +67,7 @@ var fsDirs = []string{"views", "views/partials", "admin", "views/a", "a", "z", "
 
 func genFsCase(r *Rng, out *outFiles) {
 	files := map[string]string{}
+	modes := map[string]fs.FileMode{}
 	n := 1 + r.Intn(9)
 	fragNames := []string{"frag.html", "views/frag.html", "f1", "box", "a.html"}
 	for i := 0; i < n; i++ {
@@ -87,10 +88,16 @@ func genFsCase(r *Rng, out *outFiles) {
 			content = r.Pick([]string{"<p", "<!-->", `<p a="1" a="2">`, `<p :text="${">`, ""})
 		}
 		files[name] = content
+		// an entry need not be a regular file to be a template: symlinked files (ConfigMap mounts, deploy links) and
+		// other non-directory entries are visited, matched, opened and closed like any file
+		modes[name] = 0
+		if r.Chance(15) {
+			modes[name] = []fs.FileMode{fs.ModeSymlink, fs.ModeIrregular, fs.ModeNamedPipe}[r.Intn(3)]
+		}
 	}
 	mapfs := fstest.MapFS{}
 	for k, v := range files {
-		mapfs[k] = &fstest.MapFile{Data: []byte(v)}
+		mapfs[k] = &fstest.MapFile{Data: []byte(v), Mode: modes[k]}
 	}
 	sub := ""
 	if r.Chance(40) {
